@@ -78,6 +78,9 @@ class Adapter(EnvAdapter):
             dict(id="csv", gen="csv", dims=(12, 10, 8), items=9, ems=16, obs=8, split=0, norm=True, reward="dense",
                  episodes=4 if q else 24, max_steps=12, probe_cap=32, policies=["masked", "random", "mostly_masked"]),
         ]
+        # a container whose first dimension is its smallest and whose last is its largest, integer observation
+        cs.append(dict(id="r457_int", gen="random", dims=(4, 5, 7), items=8, ems=20, obs=20, split=2, norm=False, reward="sparse",
+                       episodes=8 if q else 40, max_steps=12, probe_cap=30, policies=pol))
         if not q:
             cs += [
                 dict(id="r20ft_int", gen="random", dims=None, items=20, ems=40, obs=25, split=5, norm=False,
